@@ -24,12 +24,13 @@ MACROS = {
     "is_fb(m)": "has_attr(m, '_magic_feedback') and truthy(m._magic_feedback)",
 }
 CLASSES = {
-    "PyObj": {"fields": {}}, "NTInst": {"fields": {}}, "TypeObj": {"fields": {}},
+    "PyObj": {"fields": {}}, "NTInst": {"fields": {}}, "TypeObj": {"fields": {"__name__": "Str"}},
     "Topic": {"fields": {"key": "Str"}},
     "TopicType": {"fields": {}},
     "TypedTopic": {"fields": {"key": "Str", "ttype": "Ref:TopicType"}},
     "NTEntry": {"fields": {"key": "Str", "ttype": "Ref:TopicType", "g_value": "Ref:PyObj", "g_exists": "Bool", "g_sets": "Int", "g_setdefaults": "Int"}},
-    "tunable": {"fields": {"_ntdefault": "Ref:PyObj", "_ntsubtable": "Opt[Str]", "_ntwritedefault": "Bool", "_topic_type": "Ref:TopicType"}},
+    "tunable": {"fields": {"_ntdefault": "Ref:PyObj", "_ntsubtable": "Opt[Str]", "_ntwritedefault": "Bool", "?_topic_type": "Bool", "_topic_type": "Ref:TopicType",
+                           "?__orig_class__": "Bool", "__orig_class__": "Ref:TypeObj"}},
     "TunOwner": {"fields": {"_tunables": "Map[Ref:tunable,Ref:NTEntry]"}},
     "Method": {"fields": {"?_magic_feedback": "Bool", "_magic_feedback": "Bool", "_magic_feedback_key": "Opt[Str]"}},
     "NTTable": {"fields": {"path": "Str"}},
@@ -40,6 +41,29 @@ CLASSES = {
 import pyvc.engine as _eng
 TUNABLE_CLS = z3.Const("class.tunable", Ref)
 SPEC_FUNCS["TUNABLE_CLASS"] = lambda: vref(TUNABLE_CLS, "TypeObj")
+# ---- type-hint plumbing (tunable.__init__ / __set_name__ / _get_topic_type_for_value): python type objects are TypeObj references;
+# what typing / the topic tables make of them are uninterpreted functions, pinned down by the assumed contracts of the typing externals
+TYPE_OF = True
+_topic_of_hint = z3.Function("topic_type_of_annotation", Ref, Ref)
+_first_arg = z3.Function("typing_first_arg", Ref, Ref)
+_origin_of = z3.Function("typing_origin", Ref, Ref)
+_seq_hint = z3.Function("sequence_hint_of_first_element", Ref, Ref)
+_hint_of = z3.Function("annotation_of_attribute", Ref, z3.StringSort(), Ref)
+SPEC_FUNCS.update({
+    "topic_of_hint": lambda h: vref(_topic_of_hint(h.z), "TopicType"), "first_arg": lambda h: vref(_first_arg(h.z), "TypeObj"),
+    "origin_of": lambda h: vref(_origin_of(h.z), "TypeObj"), "seq_hint_of": lambda v: vref(_seq_hint(v.z), "TypeObj"),
+    "hint_of": lambda o, n: vref(_hint_of(o.z, n.z), "TypeObj"), "type_of": lambda v: vref(_eng.TYPE_OF(v.z), "TypeObj"),
+    "CLASSVAR": lambda: vref(z3.Const("class.typing.ClassVar", Ref), "TypeObj"), "SEQ_CLASS": lambda: vref(z3.Const("class.collections.abc.Sequence", Ref), "TypeObj"),
+})
+MACROS.update({
+    # the topic type a default value stands for: its own type's, else (a non-empty sequence) that of 'Sequence[type of the first element]'
+    "topic_of_value(v)": "topic_of_hint(type_of(v)) if topic_of_hint(type_of(v)) is not None else (topic_of_hint(seq_hint_of(v)) if isinstance(v, SEQ_CLASS()) else None)",
+    "strip2(h)": "first_arg(h) if origin_of(h) is TUNABLE_CLASS() else h",
+    "strip(h)": "strip2(first_arg(h)) if origin_of(h) is CLASSVAR() else strip2(h)",
+    # the type hint that applies to a tunable: the parameter of tunable[T](...), else the owner's annotation with ClassVar[...] / tunable[...] removed
+    "RH(t, owner, name)": "first_arg(t.__orig_class__) if (has_attr(t, '__orig_class__') and t.__orig_class__ is not None) else strip(hint_of(owner, name))",
+    "deferred(v)": "isinstance(v, SEQ_CLASS()) and not truthy(v)",
+})
 
 CONTRACTS = {
     # ---------------------------------------------------------------- ntcore / reflection externals
@@ -67,15 +91,49 @@ CONTRACTS = {
     "inspect.getmembers": {"kind": "external", "params": {"obj": "py", "pred": "py"}, "returns": "Seq[(Str,Ref:Method)]", "pure_result": "g_members",
                            "ensures": {"bound methods": "forall(j, Int, implies(0 <= j and j < len(result), result[j][1] is not None))"}, "note": "inspect.getmembers(component, inspect.ismethod)"},
     "typing.get_type_hints": {"kind": "external", "params": {"m": "Ref:Method"}, "returns": "Map[Str,Ref:TypeObj]", "ensures": {}, "note": "typing.get_type_hints(method)"},
-    "_get_topic_type": {"kind": "external", "params": {"annotation": "Ref:TypeObj"}, "returns": "Ref:TopicType", "ensures": {}, "verify": False,
+    "_get_topic_type": {"kind": "external", "params": {"annotation": "Ref:TypeObj"}, "returns": "Ref:TopicType", "ensures": {"the topic class the tables give for this annotation (None if none)": "result is topic_of_hint(annotation)"}, "verify": False,
                         "note": "_get_topic_type: type-hint -> ntcore topic class table (structural check C09.T1 + bounded stand-in)"},
+    "tt.seq_hint": {"kind": "external", "params": {"value": "Ref:PyObj"}, "returns": "Ref:TypeObj", "ensures": {"Sequence[type(value[0])]": "result is seq_hint_of(value)"},
+                    "note": "the expression Sequence[type(value[0])] (subscripting a typing alias / the first element of an arbitrary sequence): abstracted as seq_hint_of(value)"},
+    "tt.owner_hints": {"kind": "external", "params": {"owner": "Ref:TypeObj"}, "returns": "Map[Str,Ref:TypeObj]",
+                       "ensures": {"the owner's annotations": "wf_map(result) and forall(k, Str, (result[k] is hint_of(owner, k)) if has(result, k) else (hint_of(owner, k) is None))"},
+                       "note": "typing.get_type_hints(owner) (assumed not to raise: forward references resolvable)"},
+    "typing.get_args": {"kind": "external", "params": {"tp": "Ref:TypeObj"}, "returns": "Seq[Ref:TypeObj]", "ensures": {"first parameter of the alias": "len(result) >= 1 and result[0] is first_arg(tp)"},
+                        "note": "typing.get_args on a parameterised alias (tunable[T] / ClassVar[T]: exactly one parameter)"},
+    "typing.get_origin": {"kind": "external", "params": {"tp": "Ref:TypeObj"}, "returns": "Ref:TypeObj", "ensures": {"origin": "result is origin_of(tp)"}, "note": "typing.get_origin"},
     # ---------------------------------------------------------------- repo functions
+    "_get_topic_type_for_value": {
+        "params": {"value": "Ref:PyObj"}, "returns": "Ref:TopicType", "raises": "ValueError", "modifies": [],
+        "requires": {"a value": "value is not None"},
+        "ensures": {"C09.V1 the topic type of a default value: that of its own type (bool/int/float/str/bytes/struct come before the Sequence check), else that of Sequence[type of its first element]":
+                    "result is topic_of_value(value) and not (topic_of_hint(type_of(value)) is None and deferred(value))"},
+        "ensures_raise": {"C09.V2 ValueError exactly for an empty sequence whose own type has no topic": "topic_of_hint(type_of(value)) is None and deferred(value)"},
+    },
+    "tunable.__init__": {
+        "receivers": ["tunable"], "ctor": True, "params": {"default": "Ref:PyObj", "writeDefault": "Bool", "subtable": "Opt[Str]", "doc": "Ref:PyObj"},
+        "requires": {"a default": "default is not None"}, "raises": "TypeError",
+        "modifies": ["self._ntdefault", "self._ntsubtable", "self._ntwritedefault", "self._topic_type", "self.?_topic_type"],
+        "ensures": {"settings stored": "self._ntdefault is default and self._ntsubtable == subtable and self._ntwritedefault == writeDefault",
+                    "C09.I1 a non-empty (or non-sequence) default fixes the topic type right away; an empty sequence defers it to the type hint":
+                    "(not has_attr(self, '_topic_type')) if deferred(default) else (has_attr(self, '_topic_type') and self._topic_type is not None and self._topic_type is topic_of_value(default))"},
+        "ensures_raise": {"C09.I2 TypeError exactly when the default has no NetworkTables type": "not deferred(default) and topic_of_value(default) is None"},
+    },
+    "tunable.__set_name__": {
+        "receivers": ["tunable"], "params": {"owner": "Ref:TypeObj", "name": "Str"}, "raises": ["TypeError", "ValueError"],
+        "requires": {"constructed": "self._ntdefault is not None"},
+        "modifies": ["self._topic_type", "self.?_topic_type"],
+        "ensures": {"C09.N1 the type hint (parameter of tunable[T](...), else the owner's annotation without ClassVar[...] / tunable[...]) decides the topic type when there is one; otherwise the default value does":
+                    "has_attr(self, '_topic_type') and self._topic_type is not None and "
+                    "self._topic_type is (topic_of_hint(RH(self, owner, name)) if RH(self, owner, name) is not None else topic_of_value(self._ntdefault))"},
+        "ensures_raise": {"C09.N2 an error exactly when neither the hint nor the default gives a NetworkTables type (an empty sequence needs a hint)":
+                          "(topic_of_hint(RH(self, owner, name)) is None) if RH(self, owner, name) is not None else (topic_of_value(self._ntdefault) is None or deferred(self._ntdefault))"},
+    },
     "setup_tunables": {
         "params": {"component": "Ref:TunOwner", "cname": "Str", "prefix": "Opt[Str]"}, "defaults": {"prefix": "components"},
         "local_sorts": {"tunables": "Map[Ref:tunable,Ref:NTEntry]"},
         "requires": {"object given": "component is not None",
                      "tunable descriptors are existing objects with a topic type, one per attribute name":
-                     "forall(n, Str, implies(isinstance(cattr(n), TUNABLE_CLASS()), cattr(n) is not None and cattr(n)._topic_type is not None)) and "
+                     "forall(n, Str, implies(isinstance(cattr(n), TUNABLE_CLASS()), cattr(n) is not None and has_attr(cattr(n), '_topic_type') and cattr(n)._topic_type is not None)) and "
                      "forall(a, Int, forall(b, Int, implies(0 <= a and a < b and b < len(g_dir), not (cattr(g_dir[a]) is cattr(g_dir[b])) or not is_tun(g_dir[a]))))"},
         "modifies": ["component._tunables", "NTEntry.g_value[*]", "NTEntry.g_exists[*]", "NTEntry.g_sets[*]", "NTEntry.g_setdefaults[*]"],
         "loops": {0: {"inv": {
@@ -128,6 +186,8 @@ CONTRACTS = {
 }
 NAMES = {"dir": ("contract", "tun.dir")}
 DYN_GETATTR = {("setup_tunables", "getattr"): "tun.getattr_cls"}
+CALL_OVERRIDES = {("tunable.__set_name__", "typing.get_type_hints"): "tt.owner_hints"}
+EXPR_OVERRIDES = {("_get_topic_type_for_value", "Sequence[type(value[0])]"): ("tt.seq_hint", ["value"])}
 
 
 def _lemmas():
@@ -166,6 +226,7 @@ STRUCTURAL = [("C09.T1 (also C11) the scalar and array topic-type tables map boo
 ASSUMPTIONS = [
     "ntcore behaviour (assumed): an entry reads the latest value set from either side; set overwrites, setDefault preserves an existing value; topics are identified by their key; type strings follow the topic class",
     "reflection: dir(cls)/getattr(cls, n)/inspect.getmembers/get_type_hints; one descriptor object per attribute name",
-    "_get_topic_type / _get_topic_type_for_value / tunable.__init__ / __set_name__ (type-hint plumbing through typing) are covered by the structural table check and the bounded native stand-in only",
+    "_get_topic_type (annotation -> topic class: the table lookups and the PEP 484 generic-alias analysis) is the uninterpreted topic_of_hint, covered by the structural table check C09.T1 and the bounded native stand-in only; "
+    "tunable.__init__ / __set_name__ / _get_topic_type_for_value are verified on top of it (typing.get_args / get_origin / get_type_hints assumed)",
     "names contain no '/' (key injectivity lemmas C09.L1/L2)",
 ]
